@@ -197,11 +197,16 @@ func (e *Engine) callFunc(fr *Frame, st *State, ins ssa.Instruction, fn *ssa.Fun
 		}
 	}
 	entryCond := st.cond
+	if child.ghost {
+		// specification code is pure and total: evaluate it independently of the caller's path condition
+		// (so that the same expression yields the same term wherever it is evaluated)
+		st.cond = e.tb.True()
+	}
 	res, out := e.runBody(child, st)
 	*st = *out
-	if child.ghost && !st.dead {
-		// specification code is total: every path returns, so the merged return condition is the entry condition
+	if child.ghost {
 		st.cond = entryCond
+		st.dead = false
 	}
 	return packResults(res)
 }
